@@ -397,11 +397,30 @@ def r5_decoded_fields(ctx):
         for st in dec.blocks[bi]["stmts"]:
             if st["s"] == "assign" and st["rv"]["r"] == "aggregate" and st["rv"]["kind"].get("adt", "").endswith("frame::Frame"):
                 frames.append((bi, st))
-    if not ctx.floor("R03.5", "Frame{..} construction in decode", len(frames), 1):
+    ops = None
+    if frames:
+        bi, st = frames[0]
+        fields = st["rv"]["kind"]["fields"]
+        ops = {f: o.of_operand(op) for f, op in zip(fields, st["rv"]["ops"])}
+    else:
+        # the constructor form: Frame::with_data(cmd, stream_id, data) / Frame::new(..) — the constructor itself must then be a plain
+        # field-by-field literal of its parameters
+        from .common import calls_norm as _cn, param as _param
+        mk = _cn(dec, "Frame::with_data", "Frame::new")
+        if mk and len(mk[0].args) >= 3:
+            kb = ctx.P.bodies.get("protocol::frame::Frame::" + mk[0].norm.split("::")[-1])
+            plain = False
+            if kb is not None:
+                ko = ctx.origins(kb)
+                for bi2 in sorted(kb.reachable()):
+                    for st2 in kb.blocks[bi2]["stmts"]:
+                        if st2["s"] == "assign" and st2["rv"]["r"] == "aggregate" and st2["rv"]["kind"].get("adt", "").endswith("frame::Frame"):
+                            kops = {f: var_name(ko.of_operand(op)) for f, op in zip(st2["rv"]["kind"]["fields"], st2["rv"]["ops"])}
+                            plain = kops.get("cmd") == _param(kb, 0) and kops.get("stream_id") == _param(kb, 1) and kops.get("data") == _param(kb, 2)
+            if plain:
+                ops = {"cmd": o.of_operand(mk[0].args[0]), "stream_id": o.of_operand(mk[0].args[1]), "data": o.of_operand(mk[0].args[2])}
+    if not ctx.floor("R03.5", "Frame{..} construction in decode", 1 if ops else 0, 1):
         return
-    bi, st = frames[0]
-    fields = st["rv"]["kind"]["fields"]
-    ops = {f: o.of_operand(op) for f, op in zip(fields, st["rv"]["ops"])}
     cmd_ok = is_call_term(ops.get("cmd"), FROM_U8) and is_call_term(ops["cmd"][3][0], "Buf::get_u8")
     sid_ok = is_call_term(ops.get("stream_id"), "Buf::get_u32")
     alts = ops.get("data")
